@@ -3,8 +3,8 @@ package main
 import (
 	"bufio"
 	"encoding/json"
-	"net"
 	"fmt"
+	"net"
 	"strings"
 	"sync"
 	"time"
